@@ -650,7 +650,7 @@ func textPadLeft(args ...tengo.Object) (ret tengo.Object, err error) {
 		return
 	}
 
-	padCount := ((i2 - padStrLen) / padStrLen) + 1
+	padCount := (i2 - sLen + padStrLen - 1) / padStrLen
 	retStr := strings.Repeat(s3, padCount) + s1
 	ret = &tengo.String{Value: retStr[len(retStr)-i2:]}
 
@@ -713,7 +713,7 @@ func textPadRight(args ...tengo.Object) (ret tengo.Object, err error) {
 		return
 	}
 
-	padCount := ((i2 - padStrLen) / padStrLen) + 1
+	padCount := (i2 - sLen + padStrLen - 1) / padStrLen
 	retStr := s1 + strings.Repeat(s3, padCount)
 	ret = &tengo.String{Value: retStr[:i2]}
 
